@@ -32,21 +32,19 @@ def element_types(repo):
             for st in cls.body:
                 if isinstance(st, ast.Assign) and len(st.targets) == 1 and \
                         isinstance(st.targets[0], ast.Name) and st.targets[0].id == 'ELEMENT_TYPES':
-                    if not isinstance(st.value, ast.List) or not all(
-                            isinstance(e, ast.Constant) and isinstance(e.value, str)
-                            for e in st.value.elts):
-                        raise TranslateError('ELEMENT_TYPES is not a list of string literals')
-                    return [e.value for e in st.value.elts], _sha(_src(st, text))
+                    # by meaning: any constant expression that evaluates to a sequence of strings
+                    try:
+                        val = ast.literal_eval(st.value)
+                    except (ValueError, SyntaxError, TypeError):
+                        raise TranslateError('ELEMENT_TYPES is not a constant expression')
+                    if not isinstance(val, (list, tuple)) or not val or not all(isinstance(e, str) for e in val):
+                        raise TranslateError('ELEMENT_TYPES is not a sequence of strings')
+                    return list(val), _sha(repr(list(val)))
     raise TranslateError('FEMElementalAttribute.ELEMENT_TYPES not found')
 
 
 def _dump(n):
     return ast.dump(n, annotate_fields=False, include_attributes=False)
-
-
-ALIGN_BODY = _dump(ast.parse(
-    'def _align_to_ids(self, ids, data, target_ids):\n'
-    '    return pd.DataFrame(data, index=ids).loc[target_ids].values\n').body[0].body[0])
 
 
 def _strip_doc(body):
@@ -56,52 +54,342 @@ def _strip_doc(body):
     return body
 
 
-def _frames(fn):
-    """all pd.DataFrame(index=..., data=...) calls of the write method, in order"""
-    out = []
-    for n in ast.walk(fn):
-        if isinstance(n, ast.Call) and isinstance(n.func, ast.Attribute) and n.func.attr == 'DataFrame' \
-                and isinstance(n.func.value, ast.Name) and n.func.value.id == 'pd':
-            kw = {k.arg: k.value for k in n.keywords}
-            if n.args or set(kw) != {'index', 'data'}:
-                raise TranslateError('unexpected pd.DataFrame call shape in UCDWriter.write')
-            out.append((n.lineno, kw['index'], kw['data']))
-    out.sort(key=lambda x: x[0])
-    return out
+# ---------------------------------------------------------------------------
+# UCDWriter.write read by MEANING (round 5): a small abstract interpreter.
+#
+# Abstract values (tuples):
+#   ('node_ids',) / ('elem_ids',)        self.fem_data.nodes.ids / self.fem_data.elements.ids
+#   ('node_data',)                       self.fem_data.nodes.data
+#   ('dict', sec, domain, item)          a mapping variable name -> item; sec in nodal|elemental;
+#                                        domain 'written' (exactly the variables the writer exports,
+#                                        in export order) or 'all'; item = abstract value at the
+#                                        symbolic key of the section
+#   ('key', sec)                         the symbolic variable name
+#   ('attr', sec)                        the attribute of that variable: .ids -> ('ids', sec),
+#                                        .data -> ('data', sec)
+#   ('rawattr', sec)                     fem_data.elemental_data[k]: .ids -> ('ids', sec); its .data
+#                                        is NOT the converted 2-D array -> unknown
+#   ('data', sec)                        the 2-D array of that variable
+#   ('frame', index, data)               pd.DataFrame(data, index=index)
+#   ('loc', frame, target)               frame.loc[target]
+#   ('align', ids, data, target)         rows of data (given for ids) in the order of target
+#   ('cols', elt, dict)                  [elt for <var> in dict]  concatenated along axis 1
+#   ('unknown', why)
+# Private helpers of the class are entered (statement-level calls: their body is walked with the
+# parameters bound to the abstract values of the arguments; expression-level calls: their single
+# return expression is evaluated), so that extracting a helper from `write` or inlining one into it
+# does not change what is read.  Spelling that does not matter: local names, keyword vs positional
+# arguments of internal calls, d.values() / d.items() / d.keys() / d[k], dict comprehension in
+# between, np.concatenate(axis=1) / np.hstack / np.column_stack, .values / .to_numpy().
+# ---------------------------------------------------------------------------
+UNK = 'unknown'
 
 
-def _mode(index, data, helper_ok, what):
-    """classify one data frame: 'pos' | 'id'"""
-    if not (isinstance(data, ast.Call) and isinstance(data.func, ast.Attribute)
-            and data.func.attr == 'concatenate' and len(data.args) == 1
-            and isinstance(data.args[0], ast.ListComp)
-            and [k.arg for k in data.keywords] == ['axis']
-            and isinstance(data.keywords[0].value, ast.Constant) and data.keywords[0].value.value == 1):
-        raise TranslateError(f'{what}: data= is not np.concatenate([... for ...], axis=1)')
-    lc = data.args[0]
-    if len(lc.generators) != 1:
-        raise TranslateError(f'{what}: more than one generator')
-    elt = lc.elt
-    # positional: the element is `<var>.data`
-    if isinstance(elt, ast.Attribute) and elt.attr == 'data' and isinstance(elt.value, ast.Name):
+def _unk(why):
+    return (UNK, why)
+
+
+BASE_ATTRS = {
+    'self.fem_data.nodes.ids': ('node_ids',),
+    'self.fem_data.elements.ids': ('elem_ids',),
+    'self.fem_data.nodes.data': ('node_data',),
+    'self.fem_data.elemental_data': ('dict', 'elemental', 'all', ('rawattr', 'elemental')),
+}
+NODAL_DICT = ('dict', 'nodal', 'written', ('attr', 'nodal'))
+ELEM_ARRAYS = ('dict', 'elemental', 'written', ('data', 'elemental'))
+
+
+class _Interp:
+    def __init__(self, fns):
+        self.fns = fns
+        self.frames = []      # abstract values of every <X>.to_csv(...) handed to f.write, in order
+        self.depth = 0
+
+    # ---- expressions
+    def bind_call(self, fn, call, env):
+        """parameter name -> abstract value for a call of a method of the class"""
+        params = [a.arg for a in fn.args.args]
+        if params and params[0] == 'self':
+            params = params[1:]
+        if fn.args.vararg or fn.args.kwarg or any(isinstance(a, ast.Starred) for a in call.args) \
+                or any(k.arg is None for k in call.keywords):
+            return None
+        out = {}
+        if len(call.args) > len(params):
+            return None
+        for p, a in zip(params, call.args):
+            out[p] = self.ev(a, env)
+        kwonly = [a.arg for a in fn.args.kwonlyargs]
+        for k in call.keywords:
+            if k.arg not in params + kwonly or k.arg in out:
+                return None
+            out[k.arg] = self.ev(k.value, env)
+        # defaults
+        defaults = dict(zip(params[len(params) - len(fn.args.defaults):], fn.args.defaults))
+        defaults.update({a: d for a, d in zip(kwonly, fn.args.kw_defaults) if d is not None})
+        for p in params + kwonly:
+            if p not in out:
+                if p not in defaults:
+                    return None
+                out[p] = self.ev(defaults[p], {})
+        return out
+
+    def self_method(self, node):
+        if isinstance(node, ast.Call) and isinstance(node.func, ast.Attribute) \
+                and isinstance(node.func.value, ast.Name) and node.func.value.id == 'self':
+            return node.func.attr
+        return None
+
+    def ev(self, e, env):
+        src = ast.unparse(e)
+        if src in BASE_ATTRS:
+            return BASE_ATTRS[src]
+        if isinstance(e, ast.Name):
+            return env.get(e.id, _unk(f'name {e.id}'))
+        if isinstance(e, ast.Constant):
+            return ('const', e.value)
+        if isinstance(e, ast.List) and not e.elts:
+            return ('emptylist',)
+        if isinstance(e, ast.Attribute):
+            v = self.ev(e.value, env)
+            if v[0] in ('attr', 'rawattr') and e.attr == 'ids':
+                return ('ids', v[1])
+            if v[0] == 'attr' and e.attr in ('data', 'values'):
+                return ('data', v[1])
+            if v[0] == 'data' and e.attr == 'data':       # ndarray.data (memoryview): same shape
+                return v
+            if v[0] == 'loc' and e.attr == 'values':
+                fr = v[1]
+                return ('align', fr[1], fr[2], v[2])
+            if v[0] == 'frame' and e.attr == 'loc':
+                return ('locof', v)
+            return _unk(f'attribute {src}')
+        if isinstance(e, ast.Subscript):
+            v = self.ev(e.value, env)
+            k = self.ev(e.slice, env)
+            if v[0] == 'dict' and k == ('key', v[1]):
+                return v[3]
+            if v[0] == 'locof':
+                return ('loc', v[1], k)
+            return _unk(f'subscript {src}')
+        if isinstance(e, ast.Call):
+            m = self.self_method(e)
+            if m == 'try_convert_to_2d':
+                kw = {k.arg: k.value for k in e.keywords}
+                mode = e.args[0] if e.args else kw.get('mode', ast.Constant('nodal'))
+                if isinstance(mode, ast.Constant) and mode.value == 'nodal' and len(e.args) + len(kw) <= 1:
+                    return NODAL_DICT
+                return _unk(src)
+            if m == '_convert_objectdict2arraydict':
+                if len(e.args) == 1 and not e.keywords and ast.unparse(e.args[0]) == 'self.fem_data.elemental_data':
+                    return ELEM_ARRAYS
+                return _unk(src)
+            if m is not None and m in self.fns and self.depth < 3:
+                fn = self.fns[m]
+                body = _strip_doc(fn.body)
+                b = self.bind_call(fn, e, env)
+                if b is None or len(body) != 1 or not isinstance(body[0], ast.Return) or body[0].value is None:
+                    return _unk(f'helper {m} is not a single return expression')
+                self.depth += 1
+                try:
+                    return self.ev(body[0].value, b)
+                finally:
+                    self.depth -= 1
+            f = e.func
+            fs = ast.unparse(f)
+            kw = {k.arg: k.value for k in e.keywords}
+            if fs in ('pd.DataFrame', 'pandas.DataFrame'):
+                args = list(e.args)
+                data = args[0] if args else kw.get('data')
+                index = args[1] if len(args) > 1 else kw.get('index')
+                if data is None or index is None or len(args) > 2 or set(kw) - {'data', 'index'} \
+                        or len(args) + len(kw) != 2:
+                    return _unk(f'DataFrame call {src}')
+                return ('frame', self.ev(index, env), self.ev(data, env))
+            if fs in ('np.concatenate', 'numpy.concatenate', 'np.hstack', 'numpy.hstack',
+                      'np.column_stack', 'numpy.column_stack'):
+                if fs.endswith('concatenate'):
+                    ax = kw.get('axis', e.args[1] if len(e.args) > 1 else None)
+                    if not (isinstance(ax, ast.Constant) and ax.value in (1, -1)) or len(e.args) + len(kw) != 2:
+                        return _unk(f'concatenate not along axis 1: {src}')
+                elif len(e.args) != 1 or kw:
+                    return _unk(src)
+                seq = e.args[0]
+                if isinstance(seq, ast.Call) and ast.unparse(seq.func) in ('list', 'tuple') and len(seq.args) == 1:
+                    seq = seq.args[0]
+                if isinstance(seq, ast.Name) and env.get(seq.id, ('',))[0] == 'cols':
+                    return env[seq.id]
+                if isinstance(seq, (ast.ListComp, ast.GeneratorExp)):
+                    return self.comp(seq, env)
+                return _unk(f'columns are not a comprehension over the variables: {src}')
+            if isinstance(f, ast.Attribute) and f.attr in ('values', 'items', 'keys') and not e.args and not kw:
+                v = self.ev(f.value, env)
+                if v[0] == 'dict':
+                    return (f.attr, v)
+                return _unk(src)
+            if isinstance(f, ast.Attribute) and f.attr == 'to_numpy' and not e.args and not kw:
+                v = self.ev(f.value, env)
+                if v[0] == 'loc':
+                    return ('align', v[1][1], v[1][2], v[2])
+                return _unk(src)
+            return _unk(f'call {src}')
+        if isinstance(e, ast.DictComp):
+            b = self.generators(e.generators, env)
+            if b is None:
+                return _unk(f'dict comprehension {src}')
+            env2, d = b
+            if self.ev(e.key, env2) != ('key', d[1]):
+                return _unk(f'dict comprehension re-keys the variables: {src}')
+            return ('dict', d[1], d[2], self.ev(e.value, env2))
+        if isinstance(e, (ast.ListComp, ast.GeneratorExp)):
+            return self.comp(e, env)
+        return _unk(src)
+
+    def always_true(self, cond, env):
+        """filters that cannot drop a variable: the written variables are 2-D by construction"""
+        if isinstance(cond, ast.Compare) and len(cond.ops) == 1 and isinstance(cond.ops[0], ast.Eq) \
+                and isinstance(cond.comparators[0], ast.Constant) and cond.comparators[0].value == 2:
+            l = cond.left
+            x = None
+            if isinstance(l, ast.Call) and ast.unparse(l.func) == 'len' and len(l.args) == 1 \
+                    and isinstance(l.args[0], ast.Attribute) and l.args[0].attr == 'shape':
+                x = l.args[0].value
+            elif isinstance(l, ast.Attribute) and l.attr == 'ndim':
+                x = l.value
+            if x is not None and self.ev(x, env)[0] == 'data':
+                return True
+        return False
+
+    def generators(self, gens, env):
+        """one generator over the variables of a section -> (env with the targets bound, dict)"""
+        if len(gens) != 1 or gens[0].is_async:
+            return None
+        g = gens[0]
+        it = self.ev(g.iter, env)
+        if it[0] == 'dict':
+            it = ('keys', it)
+        if it[0] not in ('values', 'items', 'keys'):
+            return None
+        d = it[1]
+        if d[2] != 'written':
+            return None
+        key, item = ('key', d[1]), d[3]
+        env2 = dict(env)
+        t = g.target
+        if it[0] == 'items':
+            if not (isinstance(t, ast.Tuple) and len(t.elts) == 2 and all(isinstance(x, ast.Name) for x in t.elts)):
+                return None
+            env2[t.elts[0].id], env2[t.elts[1].id] = key, item
+        else:
+            if not isinstance(t, ast.Name):
+                return None
+            env2[t.id] = key if it[0] == 'keys' else item
+        if not all(self.always_true(c, env2) for c in g.ifs):
+            return None
+        return env2, d
+
+    def comp(self, e, env):
+        b = self.generators(e.generators, env)
+        if b is None:
+            return _unk(f'comprehension is not over the exported variables: {ast.unparse(e)}')
+        env2, d = b
+        return ('cols', self.ev(e.elt, env2), d)
+
+    # ---- statements
+    def walk(self, body, env):
+        for st in body:
+            if isinstance(st, ast.Assign) and len(st.targets) == 1:
+                t = st.targets[0]
+                if isinstance(t, ast.Name):
+                    env[t.id] = self.ev(st.value, env)
+                elif isinstance(t, ast.Tuple):
+                    for x in t.elts:
+                        if isinstance(x, ast.Name):
+                            env[x.id] = _unk('tuple assignment')
+                self.scan(st.value, env)
+            elif isinstance(st, ast.Expr):
+                m = self.self_method(st.value)
+                if m is not None and m in self.fns and self.depth < 3 and \
+                        not any(isinstance(n, ast.Return) and n.value is not None
+                                for n in ast.walk(self.fns[m])):
+                    b = self.bind_call(self.fns[m], st.value, env)
+                    if b is None:
+                        raise TranslateError(f'cannot bind the arguments of self.{m}(...)')
+                    self.depth += 1
+                    self.walk(_strip_doc(self.fns[m].body), b)
+                    self.depth -= 1
+                else:
+                    c = st.value
+                    if isinstance(c, ast.Call) and isinstance(c.func, ast.Attribute) \
+                            and isinstance(c.func.value, ast.Name) and c.func.value.id in env \
+                            and env[c.func.value.id][0] in ('cols', 'emptylist', 'dict'):
+                        # any other method call on a tracked list / dict may change it
+                        env[c.func.value.id] = _unk(f'modified by {ast.unparse(c)[:60]}')
+                    self.scan(st.value, env)
+            elif isinstance(st, ast.For):
+                # loop-append form of the column list: xs = []; for ... in D...: xs.append(elt)
+                #   (simple local assignments may precede the append inside the body)
+                last = st.body[-1]
+                if isinstance(last, ast.Expr) and not st.orelse and all(
+                        isinstance(x, ast.Assign) and len(x.targets) == 1 and isinstance(x.targets[0], ast.Name)
+                        for x in st.body[:-1]):
+                    c = last.value
+                    if isinstance(c, ast.Call) and isinstance(c.func, ast.Attribute) and c.func.attr == 'append' \
+                            and isinstance(c.func.value, ast.Name) and env.get(c.func.value.id) == ('emptylist',) \
+                            and len(c.args) == 1 and not c.keywords:
+                        gen = ast.comprehension(target=st.target, iter=st.iter, ifs=[], is_async=0)
+                        b = self.generators([gen], env)
+                        if b is not None:
+                            env2 = b[0]
+                            for x in st.body[:-1]:
+                                env2[x.targets[0].id] = self.ev(x.value, env2)
+                            env[c.func.value.id] = ('cols', self.ev(c.args[0], env2), b[1])
+                            continue
+                for n in ast.walk(st.target):
+                    if isinstance(n, ast.Name):
+                        env[n.id] = _unk('loop variable')
+                self.walk(st.body, env)
+                self.walk(st.orelse, env)
+            elif isinstance(st, ast.With):
+                self.walk(st.body, env)
+            elif isinstance(st, ast.If):
+                self.walk(st.body, env)
+                self.walk(st.orelse, env)
+            elif isinstance(st, ast.Try):
+                self.walk(st.body, env)
+                for h in st.handlers:
+                    self.walk(h.body, env)
+                self.walk(st.orelse, env)
+                self.walk(st.finalbody, env)
+            elif isinstance(st, (ast.AugAssign, ast.AnnAssign)):
+                if isinstance(st.target, ast.Name):
+                    env[st.target.id] = _unk('augmented')
+
+    def scan(self, e, env):
+        """record every <X>.to_csv(...) in an expression statement (what is written as a table)"""
+        for n in ast.walk(e):
+            if isinstance(n, ast.Call) and isinstance(n.func, ast.Attribute) and n.func.attr == 'to_csv':
+                self.frames.append((n.lineno, self.ev(n.func.value, env)))
+
+
+def _classify(fr, sec, what):
+    """('frame', index, data) of a data section -> 'pos' | 'id'"""
+    want_idx = ('node_ids',) if sec == 'nodal' else ('elem_ids',)
+    if fr[0] != 'frame':
+        raise TranslateError(f'{what}: what is written is not pd.DataFrame(index=..., data=...): {fr}')
+    _, index, data = fr
+    if index != want_idx:
+        raise TranslateError(f'{what}: index= is not the mesh id list ({index})')
+    if data[0] != 'cols':
+        raise TranslateError(f'{what}: data= is not a concatenation over the exported variables ({data})')
+    _, elt, d = data
+    if d[1] != sec or d[2] != 'written':
+        raise TranslateError(f'{what}: columns do not run over the exported {sec} variables')
+    if elt == ('data', sec):
         return 'pos'
-    if isinstance(elt, ast.Call) and isinstance(elt.func, ast.Attribute) \
-            and elt.func.attr == '_align_to_ids' and isinstance(elt.func.value, ast.Name) \
-            and elt.func.value.id == 'self' and len(elt.args) == 3 and not elt.keywords:
-        if not helper_ok:
-            raise TranslateError(f'{what}: _align_to_ids used but its body is not the recognised one')
-        if _dump(elt.args[2]) != _dump(index):
-            raise TranslateError(f'{what}: rows are aligned to something else than the index= expression')
-        # the (ids, data) pair handed to the helper must be the variable's own
-        gen = lc.generators[0]
-        pair = (ast.unparse(gen.target), ast.unparse(gen.iter).split('.')[-1],
-                ast.unparse(elt.args[0]), ast.unparse(elt.args[1]))
-        if pair not in (('v', 'values()', 'v.ids', 'v.data'),
-                        ('(k, v)', 'items()', 'self.fem_data.elemental_data[k].ids', 'v'),
-                        ('k, v', 'items()', 'self.fem_data.elemental_data[k].ids', 'v')):
-            raise TranslateError(f'{what}: unrecognised (ids, data) arguments of _align_to_ids: {pair}')
+    if elt == ('align', ('ids', sec), ('data', sec), want_idx):
         return 'id'
-    raise TranslateError(f'{what}: unrecognised column expression')
+    raise TranslateError(f'{what}: unrecognised column expression {elt}')
 
 
 def writer_modes(repo):
@@ -114,28 +402,20 @@ def writer_modes(repo):
     fns = {f.name: f for f in cls[0].body if isinstance(f, ast.FunctionDef)}
     if 'write' not in fns:
         raise TranslateError('UCDWriter.write not found')
-    helper_ok = False
-    if '_align_to_ids' in fns:
-        h = fns['_align_to_ids']
-        body = _strip_doc(h.body)
-        if [a.arg for a in h.args.args] == ['self', 'ids', 'data', 'target_ids'] \
-                and len(body) == 1 and _dump(body[0]) == ALIGN_BODY:
-            helper_ok = True
-        else:
-            raise TranslateError('_align_to_ids has an unrecognised body')
-    fr = _frames(fns['write'])
+    it = _Interp(fns)
+    it.walk(_strip_doc(fns['write'].body), {})
+    fr = [v for _, v in it.frames]
     # node table, one per element block (inside the loop: one call), nodal data, elemental data
     if len(fr) != 4:
-        raise TranslateError(f'expected 4 pd.DataFrame calls in UCDWriter.write, found {len(fr)}')
-    want_idx = ['self.fem_data.nodes.ids', 'element.ids', 'self.fem_data.nodes.ids',
-                'self.fem_data.elements.ids']
-    for (ln, idx, _), w in zip(fr, want_idx):
-        if _src(idx, text) != w:
-            raise TranslateError(f'line {ln}: index= is {_src(idx, text)!r}, expected {w!r}')
-    nodal = _mode(fr[2][1], fr[2][2], helper_ok, 'nodal data frame')
-    elemental = _mode(fr[3][1], fr[3][2], helper_ok, 'elemental data frame')
-    return {'nodal_by_id': nodal == 'id', 'elemental_by_id': elemental == 'id'}, \
-        _sha(_src(fns['write'], text) + (_src(fns['_align_to_ids'], text) if '_align_to_ids' in fns else ''))
+        raise TranslateError(f'expected 4 tables written with to_csv in UCDWriter.write, found {len(fr)}')
+    if fr[0] != ('frame', ('node_ids',), ('node_data',)):
+        raise TranslateError(f'node table is not pd.DataFrame(index=nodes.ids, data=nodes.data): {fr[0]}')
+    if fr[1][0] != 'frame':
+        raise TranslateError(f'element table is not a pd.DataFrame: {fr[1]}')
+    nodal = _classify(fr[2], 'nodal', 'nodal data frame')
+    elemental = _classify(fr[3], 'elemental', 'elemental data frame')
+    used = ''.join(_src(fns[n], text) for n in sorted(fns) if n != '__init__')
+    return {'nodal_by_id': nodal == 'id', 'elemental_by_id': elemental == 'id'}, _sha(used)
 
 
 # The file layer both readers (UCD, FrontISTR) go through.  The models take
@@ -209,14 +489,57 @@ def file_layer(repo):
     return _sha(ast.unparse(fns['read_file']) + ast.unparse(fns['read_files']))
 
 
-def translate(repo):
-    et, s1 = element_types(repo)
-    modes, s2 = writer_modes(repo)
-    s3 = file_layer(repo)
-    return {'element_types': et, **modes, 'reads_file_every_call': True}, {
-        'femio/fem_elemental_attribute.py:ELEMENT_TYPES': s1,
-        'femio/formats/ucd/write_ucd.py:UCDWriter.write': s2,
-        'femio/util/string_parser.py:StringSeries.read_file+read_files': s3}
+# The model of each translated region as it was last read successfully from the registered tree
+# (/repo 38049d8); committed copy: coq/C04/gen_baseline/UcdCfg.v.  Used as the HAND model of a region
+# the translator cannot read (policy round 5: degrade T -> H with a widened correspondence instead of
+# raising an alarm without a failing input).
+BASELINE = {
+    'element_types': ['line', 'line2', 'spring', 'tri', 'tri2', 'quad', 'quad2', 'polygon', 'tet', 'tet2',
+                      'pyr', 'pyr2', 'prism', 'prism2', 'hex', 'hex2', 'hexprism', 'polyhedron', 'unknown'],
+    'nodal_by_id': True, 'elemental_by_id': True, 'reads_file_every_call': True}
+
+REGIONS = {
+    'femio/fem_elemental_attribute.py:ELEMENT_TYPES': 'element_types',
+    'femio/formats/ucd/write_ucd.py:UCDWriter.write': 'writer',
+    'femio/util/string_parser.py:StringSeries.read_file+read_files': 'file_layer'}
+
+
+def translate(repo, degrade=False):
+    """degrade=False: fail closed (TranslateError).  degrade=True: a region that cannot be read is
+    replaced by its BASELINE model and reported in the third component [(region, reason), ...]."""
+    cfg, consumed, degraded = {}, {}, []
+
+    def region(key, f, fill):
+        try:
+            fill(*f(repo))
+        except (TranslateError, SyntaxError, OSError, RecursionError) as e:
+            if not degrade:
+                raise e if isinstance(e, TranslateError) else TranslateError(str(e))
+            degraded.append((key, f'{type(e).__name__}: {e}'))
+            for k in fill.keys:
+                cfg[k] = BASELINE[k]
+
+    def fill_et(et, sha):
+        cfg['element_types'] = et
+        consumed['femio/fem_elemental_attribute.py:ELEMENT_TYPES'] = sha
+    fill_et.keys = ['element_types']
+
+    def fill_modes(modes, sha):
+        cfg.update(modes)
+        consumed['femio/formats/ucd/write_ucd.py:UCDWriter.write'] = sha
+    fill_modes.keys = ['nodal_by_id', 'elemental_by_id']
+
+    def fill_fl(sha):
+        cfg['reads_file_every_call'] = True
+        consumed['femio/util/string_parser.py:StringSeries.read_file+read_files'] = sha
+    fill_fl.keys = ['reads_file_every_call']
+
+    region('femio/fem_elemental_attribute.py:ELEMENT_TYPES', element_types, fill_et)
+    region('femio/formats/ucd/write_ucd.py:UCDWriter.write', writer_modes, fill_modes)
+    region('femio/util/string_parser.py:StringSeries.read_file+read_files', lambda r: (file_layer(r),), fill_fl)
+    if degrade:
+        return cfg, consumed, degraded
+    return cfg, consumed
 
 
 def emit(cfg):
@@ -237,6 +560,7 @@ def emit(cfg):
 
 if __name__ == '__main__':
     import sys
-    c, s = translate(sys.argv[1] if len(sys.argv) > 1 else '/repo')
+    c, s, dg = translate(sys.argv[1] if len(sys.argv) > 1 else '/repo', degrade=True)
     print(c)
+    print('degraded:', dg)
     print(emit(c))
